@@ -979,6 +979,9 @@ impl Corpus {
             cache: BTreeMap::new(),
         }
     }
+    pub fn root(&self) -> &str {
+        &self.root
+    }
     pub fn get(&mut self, rel: &str) -> Result<Rc<Vec<u8>>, String> {
         if let Some(d) = self.cache.get(rel) {
             return Ok(d.clone());
@@ -1326,13 +1329,30 @@ pub fn run_trace(
                     if fault_free { "fault_free" } else { "faulted" },
                     w.kind
                 ));
-                let checked = guard(|| sfnt_check::validate(w, fault_free));
+                let source_loadable = fault_free
+                    || guard(|| match env.provider() {
+                        Ok(p) => Font::new(p).is_ok(),
+                        Err(_) => false,
+                    })
+                    .unwrap_or(false);
+                let checked = guard(|| sfnt_check::validate(w, fault_free, source_loadable));
                 let problems = match checked {
                     Ok(p) => p,
-                    Err(p) => vec![(
-                        "self-load-panic".to_string(),
-                        format!("{}:{} {}", p.rel_file(), p.line, p.msg_class()),
-                    )],
+                    Err(p) => {
+                        if fault_free {
+                            vec![(
+                                "self-load-panic".to_string(),
+                                format!("{}:{} {}", p.rel_file(), p.line, p.msg_class()),
+                            )]
+                        } else {
+                            // A panic while reading back the output of a damaged source is
+                            // C01's (reader robustness), not the writer's.
+                            let mut v = panic_violation(&p, &Op::FontNew, i);
+                            v.op_kind = format!("self-load:{}", op.kind());
+                            report.foreign.push(v);
+                            Vec::new()
+                        }
+                    }
                 };
                 for (name, msg) in problems {
                     report.violations.push(Violation {
@@ -1386,6 +1406,86 @@ pub fn run_trace(
                     overflow_profile: false,
                 });
                 stop = true;
+            }
+        }
+
+        // ---- oracle C03 (pure operations): byte-identical on every run. The op is repeated
+        // on freshly spawned threads (std's RandomState draws new keys per thread, so any
+        // dependence on HashMap iteration order shows up as differing output).
+        if prop == "C03" && !stop && (op.is_writer() || matches!(op, Op::Load { .. })) {
+            if let Ok(main_out) = &result {
+                for rep in 0..2 {
+                    let t2 = trace.clone();
+                    let op2 = op.clone();
+                    let root = corpus.root().to_string();
+                    let handle = std::thread::Builder::new()
+                        .stack_size(8 << 20)
+                        .spawn(move || {
+                            crate::util::install_hook();
+                            guard(|| {
+                                let mut c2 = Corpus::new(&root);
+                                let prepared = prepare(&t2, &mut c2).map_err(|e| e)?;
+                                let sim = prepared.disk.clone().map(SimProvider::new);
+                                let env = Env {
+                                    mode: t2.mode.clone(),
+                                    sim,
+                                    image: &prepared.image,
+                                    index: t2.font_index,
+                                    font_len: prepared.font_len,
+                                    fault_free: t2.faults.is_empty(),
+                                };
+                                let mut w = World::new(&env);
+                                let mut e = Extra::default();
+                                let out = w.exec(&op2, &mut e);
+                                Ok::<(String, String), String>((out.class, out.canon))
+                            })
+                        });
+                    let repeated = match handle.map(|h| h.join()) {
+                        Ok(Ok(Ok(Ok(r)))) => Some(r),
+                        _ => None,
+                    };
+                    stats.bump("c03.pure_repeats");
+                    match repeated {
+                        Some((c2, k2)) => {
+                            if c2 != main_out.class || k2 != main_out.canon {
+                                report.violations.push(Violation {
+                                    property: "C03".into(),
+                                    kind: "oracle".into(),
+                                    site: format!("pure-op-not-reproducible:{}", op.kind()),
+                                    msg: format!(
+                                        "repetition {} of op {} on a fresh thread gave [{}] {} instead of [{}] {}",
+                                        rep,
+                                        i,
+                                        c2,
+                                        k2.chars().take(120).collect::<String>(),
+                                        main_out.class,
+                                        main_out.canon.chars().take(120).collect::<String>()
+                                    ),
+                                    op_index: i,
+                                    op_kind: op.kind().into(),
+                                    overflow_profile: false,
+                                });
+                                stop = true;
+                                break;
+                            }
+                        }
+                        None => {
+                            // the repetition panicked or could not be set up although the
+                            // original succeeded: also a reproducibility failure
+                            report.violations.push(Violation {
+                                property: "C03".into(),
+                                kind: "oracle".into(),
+                                site: format!("pure-op-not-reproducible:{}", op.kind()),
+                                msg: format!("repetition {} of op {} failed to run", rep, i),
+                                op_index: i,
+                                op_kind: op.kind().into(),
+                                overflow_profile: false,
+                            });
+                            stop = true;
+                            break;
+                        }
+                    }
+                }
             }
         }
 
